@@ -13,6 +13,12 @@ CHECKS = {
  "C06": (True, "model_checking", "stateless model checking of the real code: client conn + ServeOne over a model pipe, deviation-bounded (0,1; 2 on the small grid in thorough) schedule enumeration per (client program, handler program, config) followed by a probe RPC",
          "For every (client program, handler program) pair up to 1 (quick) / 2 (thorough) send/recv/half-close steps per side, ending by Close, context cancel (a canceller thread placed at every point by the deviation bound) or half-close+drain, handlers returning nil or an error possibly without draining, soft and hard cancel, unbounded and rendezvous pipe, the real drpcconn/drpcserver pair is run under every schedule with at most 1 (2) deviations from the default schedule, then a probe RPC is issued (after quiescence with the premise checked, or immediately). Oracle: the probe returns its own echo unless the connection reports closed; a probe parked at final quiescence is reported with the wait-for set.",
          "Deviation bound 1-2 (not all interleavings); programs up to 2 steps per side; transport is the in-memory model; handlers end when their stream ends.", "4/C06"),
+ "C01": (True, "model_checking", "stateless model checking of the real code: conn + ServeOne over a model pipe, deviation-bounded schedule enumeration (bound 1 on the size/config grid, 2 on concurrent senders/receivers/closers) with a FIFO/exactly-once/flush-at-return/completeness oracle",
+         "Messages of boundary sizes (0,1,split-1,split,split+1,2*split+1, 70 KiB) are sent in both directions by 1-2 sender goroutines to 1-2 receivers under split-size/writer-buffer/manual-flush/soft-cancel/pipe-capacity/1-byte-read configurations; every schedule within the deviation bound is executed on the real drpcconn/drpcserver pair. Oracle: each receiver's list is, per sender, an in-order duplicate-free subsequence of the submitted byte strings with no gap over a successful send; when MsgSend returns nil under automatic flushing the complete message is already in the transport write log (parsed by the independent reference decoder); at quiescence all successful sends were received; after a graceful half-close the receiver gets io.EOF; with a concurrent closer/canceller safety still holds and nobody stays blocked.",
+         "Deviation bound 1-2; <=3 messages per sender, boundary size alphabet; model transport; a scheduling point inside the harness Unmarshal models a slow consumer of the lent buffer.", "4/C01"),
+ "C02": (True, "model_checking", "stateless model checking of the real code: histories of 2-3 tagged RPCs (and 2-3 concurrent callers) on one connection, deviation bound 1 (2 for soft-cancel histories), tag/echo/error-identity oracle",
+         "Every history of 2 (thorough: 3) RPCs where the earlier ones end by normal completion, client Close, context cancel at every point (hard and soft), handler error or early handler return, followed by a victim RPC, plus 2-3 goroutines calling Invoke concurrently, is executed under every schedule within the deviation bound. Oracle: every payload received by RPC r on either side carries r's tag and verifies its checksum; handler errors seen by r are r's; a nil unary result is the echo of its own request; an RPC not ended by its caller whose handler is well-behaved succeeds unless the connection reports closed by final quiescence.",
+         "Deviation bound 1-2; <=3 RPCs; model transport.", "4/C02"),
 }
 ALL = ["C%02d" % i for i in range(1, 20)]
 NOT_BUILT_REASON = "check not built yet in this round (planned: see DESIGN.md section 4); not claimed until it exists"
